@@ -66,6 +66,7 @@ func main() {
 	verbose := flag.Bool("v", false, "verbose")
 	tmo := flag.Int("solver-timeout-ms", 20000, "per-query solver timeout")
 	list := flag.Bool("list", false, "list harnesses and exit")
+	extra := flag.String("extra-overlay", "", "comma separated dir=pkgdir pairs: helper .go files overlaid into other packages")
 	flag.Parse()
 
 	absPkg := filepath.Join(*repo, *pkgDir)
@@ -85,6 +86,29 @@ func main() {
 				fatal(err)
 			}
 			overlay[filepath.Join(absPkg, n)] = b
+		}
+	}
+	for _, pair := range strings.Split(*extra, ",") {
+		if pair == "" {
+			continue
+		}
+		kv := strings.SplitN(pair, "=", 2)
+		if len(kv) != 2 {
+			fatal(fmt.Errorf("bad -extra-overlay %q", pair))
+		}
+		ents, err := os.ReadDir(kv[0])
+		if err != nil {
+			fatal(err)
+		}
+		for _, en := range ents {
+			if !strings.HasSuffix(en.Name(), ".go") {
+				continue
+			}
+			b, err := os.ReadFile(filepath.Join(kv[0], en.Name()))
+			if err != nil {
+				fatal(err)
+			}
+			overlay[filepath.Join(*repo, kv[1], en.Name())] = b
 		}
 	}
 	cfg := &packages.Config{
